@@ -230,6 +230,15 @@ def scen_invalid(env, which):
     s0 = edzed.Input('s0', initdef=0)
     stage = {}
 
+    def prior(name):
+        """optionally an earlier, VALID reference by name to the same block (any kind is fine for these)"""
+        k = env.choose(3, 'prior_valid_reference')
+        if k == 1:
+            return [edzed.IfOutput(name)]
+        if k == 2:
+            return [edzed.DataEdit.add_output('k', name)]
+        return []
+
     def build():
         if which == 'unknown-name':
             edzed.And('c').connect('s0', 'nope')
@@ -240,11 +249,13 @@ def scen_invalid(env, which):
         elif which == 'event-dest-cblock':
             c = edzed.And('c').connect(s0)
             by = env.choose(2, 'by_name')
-            Settable('t', on_output=edzed.Event('c' if by else c, 'put'))
+            flt = prior('c') if by else []
+            Settable('t', on_output=edzed.Event('c' if by else c, 'put', efilter=flt))
         elif which == 'filter-wrong-kind':
             c = edzed.And('c').connect(s0)
             by = env.choose(2, 'by_name')
-            Settable('t', on_output=edzed.Event(s0, 'put', efilter=edzed.IfNotIitialized('c' if by else c)))
+            flt = prior('c') if by else []
+            Settable('t', on_output=edzed.Event(s0, 'put', efilter=flt + [edzed.IfNotIitialized('c' if by else c)]))
         elif which == 'missing-input':
             edzed.Override('c').connect(input=s0)
         elif which == 'wrong-shape-not':
